@@ -15,8 +15,9 @@ Extraction "C32x.ml" conv_int conv_bool conv_float print_float print_bool print_
   write write_array read_fixed read_array shape_of open_stream read_token.
 '''
 WS = [' ', '\t', '\n', '\r', '\f', '\v']
-FIXED = {'S': 1, 'C': 2, 'V3': 3, 'R3': 3, 'V2V3': 6, 'M23': 6, 'M22': 4}
-ARRAYS = {'A': 1, 'VEC': 1, 'AV3': 3, 'VV3': 3, 'AC': 2, 'AM22': 4}
+FIXED = {'S': 1, 'C': 2, 'V3': 3, 'R3': 3, 'V2V3': 6, 'M23': 6, 'M22': 4, 'V3F': 3}
+F32 = ('SF', 'V3F', 'AF', 'VECF')
+ARRAYS = {'A': 1, 'VEC': 1, 'AV3': 3, 'VV3': 3, 'AC': 2, 'AM22': 4, 'AF': 1, 'VECF': 1}
 
 def hx(s): return s.encode('latin1').hex() if s else '-'
 def dbits(x): return '%x' % struct.unpack('>Q', struct.pack('>d', x))[0]
@@ -139,6 +140,47 @@ def tagged_search(ctx, exe, n):
     (independent of the model): valid literals must convert to the constructed value, literals with a trailing
     junk character must be rejected, printed values must convert back, written composites must read back."""
     r = ctx.rng; lines = []; expect = []
+    # ---- special values of BOTH floating types through every tied route; expected outcome known by construction
+    INF = float('inf'); NAN = float('nan')
+    def b64(x): return dbits(x)
+    def b32(x): return '%x' % struct.unpack('>I', struct.pack('>f', x))[0]
+    def same(tok, x, single):
+        """token = bit pattern printed by the probe; x = expected value (NaN as a class, infinities with their sign)"""
+        try: v = int(tok, 16)
+        except ValueError: return False
+        if single:
+            if x != x: return v & 0x7f800000 == 0x7f800000 and v & 0x7fffff != 0
+            return tok == b32(x)
+        if x != x: return v & 0x7ff0000000000000 == 0x7ff0000000000000 and v & 0xfffffffffffff != 0
+        return tok == b64(x)
+    specials = [('nan', NAN), ('inf', INF), ('-inf', -INF), ('+inf', INF), ('infinity', INF), ('+infinity', INF), ('-infinity', -INF)]
+    for word, val in specials:                       # denotation: every spelling, case and padding, float and double
+        for variant in (word, word.upper(), word.capitalize(), word[:1] + word[1:].title(), '  ' + word + '\t', '\n' + word.upper() + '  '):
+            for cmd, single in (('CD', False), ('CF', True)):
+                lines.append('%s %s' % (cmd, hx(variant)))
+                expect.append(('%s of %r must give %r' % ('float' if single else 'double', variant, val),
+                               lambda o, val=val, single=single: o[:1] == ['1'] and same(o[1], val, single) and o[2:3] == ['n']))
+    for val in (NAN, INF, -INF):                     # String(x) -> tryConvertTo, float and double
+        lines.append('PD ' + b64(val)); expect.append(('String(double %r) round trip' % val, lambda o, val=val: o[1] == '1' and same(o[2], val, False)))
+        lines.append('PF ' + b32(val)); expect.append(('String(float %r) round trip' % val, lambda o, val=val: o[1] == '1' and same(o[2], val, True)))
+    sets = [[-INF], [INF], [NAN], [-INF, 1.5, INF], [NAN, -INF, -2.0], [INF, INF, -INF], [-INF, -INF, -INF], [0.25, NAN, INF]]
+    for ty in list(FIXED) + list(ARRAYS) + ['SF']:  # writeUnformatted/readUnformatted of scalars and containers holding them
+        cnt = FIXED.get(ty) or (1 if ty == 'SF' else None)
+        for vs in sets:
+            if cnt is not None: vals = [(vs * 12)[j] for j in range(cnt)]
+            else: vals = [(vs * 12)[j] for j in range(ARRAYS[ty] * r.choice([1, 2, 3]))]
+            single = ty in F32
+            lines.append('W %s %s' % (ty, ' '.join(b64(x) for x in vals)))
+            expect.append(('writeUnformatted/readUnformatted %s of %r' % (ty, vals),
+                           lambda o, vals=vals, single=single: o[1:2] == ['1'] and
+                               (lambda back: len(back) == len(vals) and all(same(t, x, single) for t, x in zip(back, vals)))([t for t in o[2:] if not t.startswith('n')])))
+    for text, vals in (('-Inf 1 NaN', [-INF, 1.0, NAN]), (' -inf\t-INFINITY\n+inf', [-INF, -INF, INF]), ('NaN -Infinity Inf', [NAN, -INF, INF])):
+        for ty in ('V3', 'V3F', 'A', 'AF', 'VEC', 'VECF', 'R3'):   # readUnformatted of hand-written text
+            single = ty in F32
+            lines.append('RU %s %s' % (ty, hx(text)))
+            expect.append(('readUnformatted<%s>(%r)' % (ty, text),
+                           lambda o, vals=vals, single=single: o[:1] == ['1'] and
+                               (lambda back: len(back) == 3 and all(same(t, x, single) for t, x in zip(back, vals)))([t for t in o[1:] if not t.startswith('n')])))
     for i in range(n):
         k = i % 6
         if k == 0:
@@ -155,7 +197,7 @@ def tagged_search(ctx, exe, n):
             lines.append('PD ' + hb)
             expect.append(('String(double) round trip of bits %s' % hb, lambda o, x=x, hb=hb: o[1] == '1' and (o[2] == hb or (x != x and int(o[2], 16) & 0x7ff0000000000000 == 0x7ff0000000000000 and int(o[2], 16) & 0xfffffffffffff))))
         elif k == 4:
-            ty = r.choice(['V3', 'M23', 'AV3', 'C', 'VEC', 'AM22']); cnt = FIXED.get(ty) or ARRAYS[ty] * r.randrange(0, 4)
+            ty = r.choice(['V3', 'M23', 'AV3', 'C', 'VEC', 'AM22']); cnt = FIXED.get(ty) or ARRAYS[ty] * r.randrange(0, 4)  # (double types: exact round trip)
             vals = [dbits(r.uniform(-100, 100)) for _ in range(cnt)]
             lines.append('W %s %s' % (ty, ' '.join(vals)))
             expect.append(('writeUnformatted/readUnformatted %s of %s' % (ty, vals), lambda o, vals=vals: o[1] == '1' and [t for t in o[2:] if not t.startswith('n')] == vals))
@@ -264,6 +306,6 @@ def run(ctx):
         'float (binary32) conversion in the extracted-model run uses strtod followed by rounding to single (double rounding differs from strtof only for decimals within 2^-54 relative distance of a binary32 tie, which the generators do not produce)',
         'the text route String(T)/convertTo<T> for composites (Vec, Vector, Mat, complex, Array_ with brackets and commas: readArrayFromStream, operator>>) is not modelled; composites are claimed for the unformatted route only',
         'XML round trips (Xml.cpp, TinyXML) are not modelled and not decided']
-    if ctx.broken or T:
-        if okc: tagged_search(ctx, exe, 600 if not T else 6000)
+    # the search is model-independent and cheap: run it on every run (larger when something broke or in thorough)
+    if okc: tagged_search(ctx, exe, 6000 if T else (600 if ctx.broken else 240))
     ctx.finish()
